@@ -475,12 +475,12 @@ pub fn main(prop: &'static str, tier: Tier, replay: Option<String>) -> i32 {
         ("C40", Tier::Thorough) => (60, 100_000),
         // many workloads with a stratified sample of their points reach more distinct windows (e.g. "killed
         // right after a COMMIT that followed an autocommit write to the same page") than few workloads
-        // enumerated densely; the thorough tier takes 300 workloads and up to 600 points of each (every point of the workloads without pre-loaded tables; a stratified sample of the several thousand points of the pre-loaded ones)
+        // enumerated densely; the thorough tier takes 150 workloads and up to 300 points of each (every point of the workloads without pre-loaded tables; a stratified sample of the several thousand points of the pre-loaded ones)
         (_, Tier::Quick) => (48, 36),
-        (_, Tier::Thorough) => (300, 600),
+        (_, Tier::Thorough) => (150, 300),
     };
     ctx.set_rule(match prop {
-        "C01" => "E-hist workloads (DDL, DML on indexed tables, explicit transactions, checkpoints; wide keys so pages split) run in a child process with PRAGMA wal=ON, synchronous=FULL; every hook point (statement acknowledged, page mutation, file create/grow/remove, WAL frame/flush/sync/truncate/rotate, catalog and meta writes and syncs, mmap syncs) is numbered; the child is ended with _exit at chosen points (quick: stratified by point kind, thorough: up to 600 points per workload) and the directory is reopened under the kill model (as left) and the power-loss model (each file cut back to its last synced bytes). Oracle: the recovered observation equals the reference run's observation at the last acknowledged statement boundary outside a transaction, or that plus the whole in-flight statement/transaction. Non-trivial = the crash point lies inside a statement after its first of >= 2 page mutations, right after the acknowledgement of such a statement (kind `ack`: killed while idle), or at a catalog/meta/WAL-truncate/rotate/file-create/remove point; distinct by (workload, point, model).",
+        "C01" => "E-hist workloads (DDL, DML on indexed tables, explicit transactions, checkpoints; wide keys so pages split) run in a child process with PRAGMA wal=ON, synchronous=FULL; every hook point (statement acknowledged, page mutation, file create/grow/remove, WAL frame/flush/sync/truncate/rotate, catalog and meta writes and syncs, mmap syncs) is numbered; the child is ended with _exit at chosen points (quick: stratified by point kind, thorough: 150 workloads, up to 300 points each) and the directory is reopened under the kill model (as left) and the power-loss model (each file cut back to its last synced bytes). Oracle: the recovered observation equals the reference run's observation at the last acknowledged statement boundary outside a transaction, or that plus the whole in-flight statement/transaction. Non-trivial = the crash point lies inside a statement after its first of >= 2 page mutations, right after the acknowledgement of such a statement (kind `ack`: killed while idle), or at a catalog/meta/WAL-truncate/rotate/file-create/remove point; distinct by (workload, point, model).",
         "C02" => "same engine as C01 with synchronous OFF/NORMAL/FULL under the kill model and FULL under the power-loss model. Oracle: reopening succeeds, every table scan and index probe works and agrees, and the observation equals a reference state at a statement boundary: the acknowledged prefix, or that plus the complete in-flight statement/transaction (never part of it). Non-trivial as for C01.",
         _ => "DDL-heavy E-hist workloads (CREATE/DROP TABLE and INDEX, ALTER) with crash points restricted to catalog_*, meta_*, file_create/remove/rename kinds, kill and power-loss models. Oracle: reopening succeeds and every table and index that existed before the interrupted DDL statement is still there with its rows (observation equals the reference at the previous or the next statement boundary). Non-trivial = every chosen point (all lie inside a catalog/meta/file-set rewrite).",
     });
